@@ -134,7 +134,7 @@ def handle (op : String) (j : Json) : R Json := do
                       ("best_models", jList (fun p => jOptNat p.2.1) out),
                       ("best_losses", jList (fun p => jFV p.2.2) out)])
   | "c19.spec_f" =>
-    -- the spec that skips non-finite entries for "best" and counts them for "trailing"
+    -- the spec over the full alphabet: NaN / +inf never improve, the first -inf is the final best
     let patience ← natF j "patience"
     let delta ← field j "delta" >>= asRat
     let losses ← listF asFV j "losses"
@@ -142,6 +142,7 @@ def handle (op : String) (j : Json) : R Json := do
     pure (Json.mkObj [
       ("trailing", jList (fun h => jNat (trailingF delta h)) pref),
       ("argbest", jList (fun h => jNat (argBestF delta h)) pref),
+      ("best", jList (fun h => jFV (bestFV delta h)) pref),
       ("verdicts", jList (fun h => jBool (decide (trailingF delta h > patience))) pref)])
   | "c19.loop_f" =>
     -- the epoch loop of `train` on the float-shaped machine; the last loss repeats for ever
